@@ -22,7 +22,8 @@ Definition pattern := list pseg.
 
 Inductive kind := KInt | KU32 | KStr | KBool | KList (* []string *)
                 | KEntry (* map entry holding a pointer to a struct, set with a pointer to an all-zero struct *)
-                | KObj (* map entry set as a whole with a pointer to a struct, e.g. interfaces.<*> := &InterfaceConfig{...} *) | KInternal
+                | KObj (* map entry set as a whole with a pointer to a struct, e.g. interfaces.<*> := &InterfaceConfig{...} *)
+                | KObjF (* pointer-typed struct FIELD set as a whole, e.g. interfaces.<*>.ipv6 := &IPv6Config{...} *) | KInternal
                 | KAny.   (* a leaf of a plugin namespace: in a candidate (a JSON round trip of running) the
                              plugin config is an untyped map, so any value is stored as it is *)
 (* a stored scalar; the zero value of every kind is represented by absence *)
@@ -354,6 +355,9 @@ Definition write_obj (st : state) (o : oid) (c : store) : state :=
 Definition exists_in (s : store) (h : hspec) (p : path) : bool :=
   match h_kind h with
   | KInternal => false                         (* "field not found": treated as nil *)
+  | KObjF => forallb (fun n => has_cont s (firstn n p)) (filter (fun n => (n <? length p)%nat) (h_conts h))
+                                               (* a pointer field: field.Interface() of a nil pointer is a non-nil
+                                                  interface, so only the containers ABOVE the field count *)
   | KEntry => false                            (* <*:prefix> keys are hex in the path; getValueFromConfig only
                                                   tries DecodeIP/DecodeMAC on a missing key: never found *)
   | _ => forallb (fun n => has_cont s (firstn n p)) (h_conts h)
@@ -387,6 +391,8 @@ Definition same_value (s : store) (h : hspec) (p : path) (v : value) : bool :=
     match h_kind h, v with
     | KObj, VObj fs => subtree_is s p fs
     | KObj, _ => false
+    | KObjF, VObj fs => has_cont s p && subtree_is s p fs      (* DeepEqual of a typed nil pointer and a non-nil one is false *)
+    | KObjF, _ => false
     | k, _ => match native_of k v with Some n => osval_eqb o n | None => false end
     end
   end.
@@ -397,6 +403,12 @@ Definition set_store (var : variant) (s : store) (h : hspec) (p : path) (v : val
   | KInternal => (s, true)                     (* parts[0] == "_internal": nothing stored *)
   | KObj =>                                    (* final part is a map key: SetMapIndex(key, value) when the
                                                   value is assignable; convertValue has no struct conversion *)
+    let s1 := add_conts s p (h_conts h) in
+    match v with
+    | VObj fs => (put_obj (clear_below s1 p) p fs, true)
+    | _ => (if v_set_atomic var then s else s1, false)
+    end
+  | KObjF =>                                   (* final part is a struct field of pointer type: field.Set(value) *)
     let s1 := add_conts s p (h_conts h) in
     match v with
     | VObj fs => (put_obj (clear_below s1 p) p fs, true)
